@@ -1,3 +1,5 @@
+//go:build verif_c18
+
 package main
 
 // C18 — helper tie (generic copy, escapers, XOR hash), protection, dispatcher.
